@@ -29,6 +29,40 @@ def is_ptr(v):
     return isinstance(v, tuple) and len(v) == 3 and v[0] == 'ptr'
 
 
+def is_mptr(v):
+    return isinstance(v, tuple) and len(v) == 2 and v[0] == 'mptr'
+
+
+def ite_leaves(e, limit=12):
+    """an integer that is a python int or an if-then-else tree over integer numerals (an index selected by comparisons, or loaded from
+    a constant table through such an index) -> [(condition, int)], the conditions being exhaustive and exclusive"""
+    if isinstance(e, bool):
+        return None
+    if isinstance(e, int):
+        return [(z3.BoolVal(True), e)]
+    if not z3.is_expr(e):
+        return None
+    e = z3.simplify(e)
+    out = []
+
+    def walk(x, cond):
+        if len(out) > limit:
+            return False
+        if z3.is_int_value(x):
+            out.append((cond, x.as_long()))
+            return True
+        if z3.is_app_of(x, z3.Z3_OP_ITE):
+            c, a, b = x.children()
+            return walk(a, z3.And(cond, c)) and walk(b, z3.And(cond, z3.Not(c)))
+        return False
+    if not walk(e, z3.BoolVal(True)) or len(out) > limit:
+        return None
+    by = {}
+    for c, v in out:
+        by.setdefault(v, []).append(c)
+    return [(z3.simplify(z3.Or(*cs)), v) for v, cs in by.items()]
+
+
 class Mask:
     """a 32-bit lane that is all-ones when cond holds and all-zeros otherwise (result of a SIMD comparison).  It supports no
     arithmetic: it can only be moved (shuffles, bitcasts between equally sized vector types, phi/select) and tested for its sign bit"""
@@ -215,30 +249,50 @@ class Exec:
             return [self.undef(self.mod.resolve(f)) for f in ty[1]]
         return None
 
-    def gep_off(self, bt, idx, env):
-        off = 0
+    def gep_off(self, bt, idx, env, dynamic=False):
+        """byte offset of a GEP; with dynamic=True an index may be an if-then-else tree over integer constants (Row[i][i] with i chosen
+        by comparisons): the result is then a list [(condition, offset)] with exhaustive, exclusive conditions"""
+        alts = [(None, 0)]
         t = bt
         for j, (it, iv) in enumerate(idx):
             v = self.const(iv, it, env)
-            if not isinstance(v, int):
-                raise NotEligible('dynamic GEP index')
+            if isinstance(v, int) and not isinstance(v, bool):
+                vs = [(None, v)]
+            else:
+                vs = ite_leaves(v) if dynamic else None
+                if vs is None:
+                    raise NotEligible('dynamic GEP index')
             if j == 0:
-                off += v * self.mod.sizeof(t)
+                sz = self.mod.sizeof(t)
+                step = lambda x: x * sz
             else:
                 rt = self.mod.resolve(t)
                 if rt[0] == 'struct':
-                    off += self.mod.field_offset(rt, v)
-                    t = rt[1][v]
+                    if len(vs) != 1:
+                        raise NotEligible('dynamic struct field index')
+                    fo = self.mod.field_offset(rt, vs[0][1])
+                    t = rt[1][vs[0][1]]
+                    step = lambda x: fo
                 elif rt[0] in ('array', 'vector'):
                     t = rt[2]
-                    off += v * self.mod.sizeof(t)
+                    sz = self.mod.sizeof(t)
+                    step = lambda x: x * sz
                 else:
                     raise NotEligible('GEP into scalar')
-        return off
+            alts = [(c2 if c1 is None else c1 if c2 is None else z3.And(c1, c2), o + step(x)) for c1, o in alts for c2, x in vs]
+            if len(alts) > 16:
+                raise NotEligible('dynamic GEP index with too many alternatives')
+        if len(alts) == 1 and alts[0][0] is None:
+            return alts[0][1]
+        if not dynamic:
+            raise NotEligible('dynamic GEP index')
+        return [(z3.BoolVal(True) if c is None else c, o) for c, o in alts]
 
     # ------------------------------------------------------------- memory
     def mload(self, mem, p, ty):
         ty = self.mod.resolve(ty)
+        if is_mptr(p):
+            return self.merge_val([(c, self.mload(mem, ('ptr', b, o), ty)) for c, b, o in p[1]])
         if not is_ptr(p) or p[1] is None:
             raise NotEligible('load through non-tracked pointer')
         k = ty[0]
@@ -281,9 +335,48 @@ class Exec:
             raise NotEligible('float load over packed raw value')
         return val
 
+    def local_static_never_written(self, gname):
+        """a function-local static (_ZZ...: nameable only inside its function, whose every copy is this code) that the module only ever
+        reads: all uses are getelementptr/bitcast chains ending in loads.  Such a table (static int Next[3] = {1, 2, 0}) keeps its initializer."""
+        cache = self.__dict__.setdefault('_ro_cache', {})
+        if gname in cache:
+            return cache[gname]
+
+        def mentions(v, pred):
+            if isinstance(v, (tuple, list)):
+                if len(v) == 2 and v[0] in ('global', 'local') and pred(v):
+                    return True
+                return any(mentions(x, pred) for x in v)
+            return False
+        ok = gname.startswith('_ZZ')
+        if ok:
+            for f in self.mod.funcs.values():
+                if not f.defined:
+                    continue
+                tainted = set()
+                pred = lambda v: (v[0] == 'global' and v[1] == gname) or (v[0] == 'local' and v[1] in tainted)
+                changed = True
+                while changed and ok:
+                    changed = False
+                    for b in f.blocks:
+                        for ins in b.instrs:
+                            hit = mentions(ins.ops, pred) or mentions(ins.extra.get('inc', ()), pred) or mentions(ins.extra.get('args', ()), pred)
+                            if not hit:
+                                continue
+                            if ins.op in ('getelementptr', 'bitcast'):
+                                if ins.res not in tainted:
+                                    tainted.add(ins.res)
+                                    changed = True
+                            elif ins.op == 'load':
+                                pass
+                            else:
+                                ok = False
+        cache[gname] = ok
+        return ok
+
     def gload(self, gname, off, ty):
         g = self.mod.globals.get(gname)
-        if not g or g['init'] is None or not g['const']:
+        if not g or g['init'] is None or not (g['const'] or self.local_static_never_written(gname)):
             raise NotEligible('load from non-constant global')
         # walk the initializer
         t = self.mod.resolve(g['ty'])
@@ -317,6 +410,14 @@ class Exec:
 
     def mstore(self, mem, p, ty, v):
         ty = self.mod.resolve(ty)
+        if is_mptr(p):
+            if ty[0] not in ('float', 'double'):
+                raise NotEligible('store of a non-float through a dynamically indexed pointer')
+            for c, b, o in p[1]:
+                q = ('ptr', b, o)
+                old = self.mload(mem, q, ty)        # a cell never written before reads as a fresh value
+                self.mstore(mem, q, ty, self.merge_val([(c, v), (z3.Not(c), old)]))
+            return
         if not is_ptr(p) or p[1] is None:
             raise NotEligible('store through non-tracked pointer')
         k = ty[0]
@@ -363,6 +464,19 @@ class Exec:
             return v0
         if any(is_raw(v) or isinstance(v, Mask) for v in vals):
             return self.merge_raw(conds_vals)
+        if all(v is None or is_ptr(v) or is_mptr(v) for v in vals) and any(is_mptr(v) for v in vals) or \
+                (all(v is None or is_ptr(v) for v in vals) and len({v for v in vals if v is not None}) > 1 and
+                 all(v[1] is not None for v in vals if v is not None)):
+            # pointers to different cells merged by a phi/select: a multi-pointer (finitely many cells, selected by conditions)
+            by = {}
+            for c, v in conds_vals:
+                if v is None:
+                    continue
+                for c2, b, o in (v[1] if is_mptr(v) else ((z3.BoolVal(True), v[1], v[2]),)):
+                    by.setdefault((b, o), []).append(z3.And(c, c2))
+            if len(by) > 16:
+                raise NotEligible('pointer merge with too many alternatives')
+            return ('mptr', tuple((z3.simplify(z3.Or(*cs)), b, o) for (b, o), cs in by.items()))
         r = None
         for c, v in reversed(conds_vals):
             if v is None:
@@ -829,9 +943,17 @@ class Exec:
             return
         if op == 'getelementptr':
             p = C(ins.ops[0], ins.extra['ptr_ty'])
-            off = self.gep_off(ins.extra['base_ty'], ins.extra['idx'], env)
+            off = self.gep_off(ins.extra['base_ty'], ins.extra['idx'], env, dynamic=True)
+            if is_mptr(p):
+                offs = off if isinstance(off, list) else [(z3.BoolVal(True), off)]
+                env[ins.res] = ('mptr', tuple((z3.simplify(z3.And(c1, c2)), b, o1 + o2) for c1, b, o1 in p[1] for c2, o2 in offs))
+                return
             if not is_ptr(p):
                 raise NotEligible('GEP on non-pointer')
+            if isinstance(off, list):
+                # multi-pointer: one of finitely many cells, selected by exhaustive and exclusive conditions
+                env[ins.res] = ('mptr', tuple((c, p[1], p[2] + o) for c, o in off))
+                return
             env[ins.res] = ('ptr', p[1], p[2] + off)
             return
         if op == 'load':
@@ -1124,7 +1246,7 @@ def main():
         for name, e in job['ensures']:
             goals.append((name, eval(e, ns)))
         # division obligations generated by the code itself
-        for i, (pcnd, den) in enumerate(ex.div_obls):
+        for i, (pcnd, den) in enumerate([] if 'no-division-obligations' in job.get('flags', ()) else ex.div_obls):
             goals.append(('safety:denominator_nonzero_%d' % i, z3.Implies(pcnd, den != 0)))
         out['div_obligations'] = len(ex.div_obls)
         timeout = int(job.get('timeout_s', 60))
@@ -1165,7 +1287,17 @@ def main():
                 for a in ufs.axioms:
                     s.add(a)
                 s.add(z3.Not(g))
-                r = s.check()
+                # some z3 preprocessing steps ignore the solver timeout: interrupt the context from a timer thread as well
+                import threading
+                tm = threading.Timer(timeout // (4 if tactic == 'default' else 2) + 5, s.ctx.interrupt)
+                tm.daemon = True
+                tm.start()
+                try:
+                    r = s.check()
+                except z3.Z3Exception:
+                    r = z3.unknown
+                finally:
+                    tm.cancel()
                 engine = 'z3-%s-%s' % (z3.get_version_string(), tactic)
                 if r == z3.unsat:
                     res = 'SUCCESS'
